@@ -20,6 +20,8 @@ pub struct RelSpec {
     pub decides: Vec<Kind>,
     /// cause predicates: (finding, program) -> key
     pub keyfn: fn(&Finding, &Program, &Outcome) -> Option<String>,
+    /// a further part of the same check, run before the evidence is written
+    pub extra: Option<fn(&mut Run, Tier)>,
 }
 
 pub fn enumerate(cfgs: &[GenCfg]) -> (Vec<(Program, Vec<usize>, usize)>, engine::Stats) {
@@ -111,6 +113,9 @@ pub fn run(spec: RelSpec, tier: Tier) -> i32 {
     }
     run.states = progs.len() as u64;
     run.transitions = st.points;
+    if let Some(extra) = spec.extra {
+        extra(&mut run, tier);
+    }
     run.set("split_coverage_selects_per_statement", json!(split_hist));
     run.set(
         "bounds",
